@@ -436,15 +436,33 @@ impl Storage {
         tip_header: &Header,
         last_n_headers: &[HeaderView],
     ) {
-        let key = Key::Meta(LAST_STATE_KEY).into_vec();
+        // The tip and the headers before it are written together: a tip without its last n
+        // headers could never be extended or reorganized again.
+        let mut batch = self.batch();
+        self.batch_last_state(&mut batch, total_difficulty, tip_header, last_n_headers);
+        batch.commit().expect("db put last state should be ok");
+    }
+
+    fn batch_last_state(
+        &self,
+        batch: &mut Batch,
+        total_difficulty: &U256,
+        tip_header: &Header,
+        last_n_headers: &[HeaderView],
+    ) {
         let mut value = total_difficulty.to_le_bytes().to_vec();
         value.extend(tip_header.as_slice());
-        #[cfg(feature = "verif")]
-        verif_hook::before_write();
-        self.db
-            .put(key, &value)
-            .expect("db put last state should be ok");
-        self.update_last_n_headers(last_n_headers);
+        batch
+            .put_kv(Key::Meta(LAST_STATE_KEY), value.as_slice())
+            .expect("batch put should be ok");
+        let mut value: Vec<u8> = Vec::with_capacity(last_n_headers.len() * 40);
+        for header in last_n_headers {
+            value.extend(header.number().to_le_bytes());
+            value.extend(header.hash().as_slice());
+        }
+        batch
+            .put_kv(Key::Meta(LAST_N_HEADERS_KEY), value.as_slice())
+            .expect("batch put should be ok");
     }
 
     pub fn get_last_state(&self) -> (U256, Header) {
